@@ -756,9 +756,21 @@ pub fn judge_c20(info: &Info, log: &RunLog, rep: &mut Report) {
     };
     let mut last_rcv: Option<u64> = None;
     let mut rcv_points: Vec<(usize, u64, u64, String)> = vec![];
+    // A keep-alive is computed when its prompt is handled and leaves when the link takes it (one PDU per
+    // millisecond, behind whatever is queued): the i-th keep-alive answers the i-th keep-alive prompt and may
+    // carry the figure of any instant between that prompt's arrival and its own emission.
+    let ka_prompts: Vec<u64> = d.arrivals(t.dst, id).into_iter().filter(|a| matches!(&a.3.payload, PDUPayload::Directive(Operations::Prompt(p)) if p.nak_or_keep_alive == NakOrKeepAlive::KeepAlive)).map(|a| a.1).collect();
+    let mut ka_since: std::collections::HashMap<usize, u64> = std::collections::HashMap::new();
+    let mut n_ka = 0usize;
     for e in d.emits(t.dst, id) {
         if let PDUPayload::Directive(Operations::KeepAlive(ka)) = &e.4.payload {
             rcv_points.push((e.0, e.1, ka.progress, "KeepAlive".into()));
+            if let Some(pt) = ka_prompts.get(n_ka) {
+                if *pt <= e.1 {
+                    ka_since.insert(e.0, *pt);
+                }
+            }
+            n_ka += 1;
         }
     }
     for (i, r) in log.recs.iter().enumerate() {
@@ -782,7 +794,11 @@ pub fn judge_c20(info: &Info, log: &RunLog, rep: &mut Report) {
         }
         figures += 1;
         rep.count(&format!("c20_receiver_figures:{}", what));
-        let cand = candidates(*li, *tu);
+        let mut cand = candidates(*li, *tu);
+        if let Some(since) = ka_since.get(li) {
+            cand.extend(candidates(0, *since));
+            cand.extend(cum.iter().filter(|x| x.1 >= *since && x.1 < *tu).map(|x| x.2));
+        }
         if !cand.contains(prog) {
             let rel = if *prog > *cand.iter().max().unwrap() { "over" } else { "under" };
             rep.violate("receiver-progress-wrong", format!("where={} {} cfg={} dup-or-overlap={}", what, rel, info.knobs[0].shape(), arr.len() as u64 > cum.last().map(|c| (c.2 + seg as u64 - 1) / seg as u64).unwrap_or(0)), &info.case, w(&format!("receiver reported progress {} in {} but holds {:?} distinct bytes", prog, what, cand)));
